@@ -205,6 +205,15 @@ def rule_f16_special(fn, fname: str) -> typing.List[dict]:
             v = _const_value(rhs)
             if v is not None:
                 consts[cast.show(lhs)] = v
+    # ... or initialised in their declaration: `const uint32_t k = 0x8FU << 23U;`
+    for n in cast.walk(fn):
+        if n.get("kind") == "VarDecl" and n.get("inner") and n.get("name"):
+            try:
+                v = _const_value(cast.term(n["inner"][-1]))
+            except Exception:  # noqa
+                v = None
+            if v is not None:
+                consts.setdefault(n["name"], v)
     found = False
     for s in cast.statements(fn):
         if s.node.get("kind") != "IfStmt":
@@ -229,7 +238,9 @@ def rule_f16_special(fn, fname: str) -> typing.List[dict]:
                     out.append(res(R, fname, f"{fname}: exponent-all-ones halves (boundary {'0x7C00' if k == 0x7C00 else '2**16'}) are treated as infinity / NaN", ok,
                                    f"the special-value test is `{cast.show(t)}`: the boundary value itself (+-infinity) is excluded and unpacks as the finite 65536.0"))
     if not found:
-        out.append(res(R, fname, f"{fname}: the test that separates infinity / NaN from finite halves is recognised", True, ""))
+        from nvsa.report import AnalysisError
+        raise AnalysisError(f"anchor changed: the test of {fname} that separates infinity / NaN from finite halves is not recognised "
+                            "(no comparison with 0x7C00, 2**16 or its binary32 pattern in an if)")
     return out
 
 
@@ -306,3 +317,131 @@ def rule_f16_pack_order(fn, fname: str) -> typing.List[dict]:
     ok = not bad
     return [res(R, fname, f"{fname}: the input is only loaded and stripped of its sign before it is classified as infinity / NaN", ok,
                 f"`{'; '.join(bad)}` modifies the value before the classification: a NaN whose payload lies in the masked / scaled-away bits is packed as infinity")]
+
+
+# ---- shift amounts stay below the width of what is shifted ----------------------------------------------------------------
+def _int_lit(n) -> typing.Optional[int]:
+    from nvsa import cast
+    n = cast.strip_casts(n)
+    if n.get("kind") == "IntegerLiteral":
+        try:
+            return int(n.get("value"))
+        except (TypeError, ValueError):
+            return None
+    return None
+
+
+def _cmp_facts(cond, pol: bool):
+    """(variable, 'ub'|'lb', bound) facts implied by a guard: conjunctions are split for a guard that holds, disjunctions for one
+    that does not; comparisons of a variable with an integer literal only"""
+    from nvsa import cast
+    c = cast.strip_casts(cond)
+    if c.get("kind") == "BinaryOperator" and c.get("opcode") in ("&&", "||"):
+        if (c["opcode"] == "&&") == pol:
+            out = []
+            for x in c.get("inner", []):
+                out += _cmp_facts(x, pol)
+            return out
+        return []
+    if c.get("kind") == "UnaryOperator" and c.get("opcode") == "!":
+        return _cmp_facts(c["inner"][0], not pol)
+    if c.get("kind") == "BinaryOperator" and c.get("opcode") in ("<", "<=", ">", ">=", "!=", "=="):
+        a, b = c["inner"]
+        op = c["opcode"]
+        va, vb, la, lb = cast.ref_name(a), cast.ref_name(b), _int_lit(a), _int_lit(b)
+        if va is None and vb is not None and la is not None:
+            va, lb = vb, la
+            op = {"<": ">", "<=": ">=", ">": "<", ">=": "<=", "!=": "!=", "==": "=="}[op]
+        elif not (va is not None and lb is not None):
+            return []
+        if not pol:
+            op = {"<": ">=", "<=": ">", ">": "<=", ">=": "<", "!=": "==", "==": "!="}[op]
+        k = lb
+        return {"<": [(va, "ub", k - 1)], "<=": [(va, "ub", k)], ">": [(va, "lb", k + 1)], ">=": [(va, "lb", k)],
+                "!=": [(va, "lb", 1)] if k == 0 else [], "==": [(va, "ub", k), (va, "lb", k)]}[op]
+    return []
+
+
+def rule_shift_range(fn, fname: str, min_fns=("nunavutChooseMin", "min")) -> typing.List[dict]:
+    """R-C14-SHIFT-RANGE: a shift by a run-time amount is undefined when the amount reaches the width of the (promoted) left operand.
+    Decided where the amount is a saturated length `v` or `v - c` with v = min(.., K): on the way to the shift - the condition of an
+    enclosing ?:, the left operand of an enclosing && / ||, an enclosing if - v must be bounded below the width (and, for `v - c`,
+    from below by c).  A mask hoisted out of its `(v < W) ? .. : ..` is evaluated for v == W as well."""
+    from nvsa import cast
+    R = "R-C14-SHIFT-RANGE"
+    out: typing.List[dict] = []
+    # saturated locals:  T v = (T) min(x, K)
+    sat: typing.Dict[str, int] = {}
+    for n in cast.walk(fn):
+        if n.get("kind") == "VarDecl" and n.get("inner"):
+            init = cast.strip_casts(n["inner"][-1])
+            if init.get("kind") in ("CallExpr", "CXXMemberCallExpr") and (cast.callee_name(init) or "").split("::")[-1] in min_fns:
+                ks = [_int_lit(a) for a in cast.call_args(init)]
+                ks = [k for k in ks if k is not None]
+                if ks:
+                    sat[n.get("name")] = min(ks)
+
+    def visit(n, guards):
+        k = n.get("kind")
+        inner = n.get("inner") or []
+        if k == "ConditionalOperator" and len(inner) == 3:
+            visit(inner[0], guards)
+            visit(inner[1], guards + [(inner[0], True)])
+            visit(inner[2], guards + [(inner[0], False)])
+            return
+        if k == "BinaryOperator" and n.get("opcode") in ("&&", "||") and len(inner) == 2:
+            visit(inner[0], guards)
+            visit(inner[1], guards + [(inner[0], n["opcode"] == "&&")])
+            return
+        if k == "IfStmt" and len(inner) >= 2:
+            cond_i = next((i for i, x in enumerate(inner) if x.get("kind") not in ("DeclStmt", "CompoundStmt", "NullStmt") and "type" in x), 0)
+            for x in inner[:cond_i + 1]:
+                visit(x, guards)
+            rest = inner[cond_i + 1:]
+            if rest:
+                visit(rest[0], guards + [(inner[cond_i], True)])
+            for x in rest[1:]:
+                visit(x, guards + [(inner[cond_i], False)])
+            return
+        if k in ("BinaryOperator", "CompoundAssignOperator") and n.get("opcode") in ("<<", ">>", "<<=", ">>=") and len(inner) == 2:
+            amount = cast.strip_casts(inner[1])
+            v, off = None, 0
+            if amount.get("kind") == "DeclRefExpr":
+                v = cast.ref_name(amount)
+            elif amount.get("kind") == "BinaryOperator" and amount.get("opcode") in ("-", "+") and len(amount.get("inner", [])) == 2:
+                a, b = amount["inner"]
+                if cast.ref_name(a) is not None and _int_lit(b) is not None:
+                    v, off = cast.ref_name(a), (-_int_lit(b) if amount["opcode"] == "-" else _int_lit(b))
+            if v is not None and v in sat:
+                ub, lb = sat[v], 0
+                for g, pol in guards:
+                    for var, kind_, bound in _cmp_facts(g, pol):
+                        if var == v:
+                            if kind_ == "ub":
+                                ub = min(ub, bound)
+                            else:
+                                lb = max(lb, bound)
+                qual = (inner[0].get("type") or {}).get("qualType", "")
+                bits = {"int": 16, "unsigned int": 16, "long": 32, "unsigned long": 32, "long long": 64, "unsigned long long": 64}.get(qual.replace("const ", ""))
+                if bits is None:
+                    tb = type_bytes(qual)
+                    bits = tb * 8 if tb else None
+                if bits is not None:
+                    shown = f"{v}{off:+d}" if off else v
+                    ok = ub + off < bits and lb + off >= 0
+                    out.append(res(R, fname, f"{fname}: `{qual}` shifted by `{shown}` only where 0 <= {shown} < {bits}", ok,
+                                   f"the shift is evaluated for {v} in [{lb}, {ub}]" + (f" (amount up to {ub + off})" if ub + off >= bits else " (amount below zero)") +
+                                   f": shifting a {bits}-bit operand by {bits} or more (or by a negative amount) is undefined behaviour - "
+                                   "the guard that kept the amount in range does not dominate this evaluation"))
+        for x in inner:
+            visit(x, guards)
+
+    visit(fn, [])
+    return out
+
+
+def print_shape(lines: typing.Sequence[str]) -> typing.List[str]:
+    """statement structure of an alpha_print: nesting prefix + statement kind (if / while / declaration / other).  Routines are
+    compared operand by operand only while their shapes agree; an independently restructured sibling is not comparable"""
+    import re
+    return [re.sub(r"^([a-z]*\|)(if |while |v\d+:=)?.*$", lambda m_: m_.group(1) + (m_.group(2) or "=" if ":=" not in (m_.group(2) or "") else "decl"), ln) for ln in lines]
